@@ -528,7 +528,8 @@ def long_requests(rng, quick):
                 for chs in chars:
                     ch = chs.encode("utf-8")
                     tail = b'zz"' if prefix.endswith(b'"') else b"zz"
-                    r = place(prefix, L, before, ch, rel, chunk, tail)
+                    # (a character at offset L of ONE argument needs one long token: kept up to 1 KiB in the quick tier)
+                    r = place(prefix, L, before, ch, rel, None if quick and rel == "arg" and L <= 1100 else chunk, tail)
                     if r is not None:
                         out.append(("long-straddle", r))
                     # the request ends right after / in the middle of that character
